@@ -23,7 +23,9 @@ RULE = ('histories of 1-4 parse steps (strings, files, files including files) ho
         'parse_config(list) and parse_config_files_and_bindings; includes after statements and nested includes; explicit forms '
         '(m/gin.macro.value = v, @m/gin.macro(), bind_parameter) mixed with the short form; container-valued macros holding @prov() / %CONST / %m; '
         'scoped consumer bindings and consumer calls inside gin.config_scope; duplicate definitions in the middle and at the end of a history '
-        '(after clear_config, of late constants, enum decorated twice); redefinition of a macro after finalize() under unlock_config. '
+        '(after clear_config, of late constants, enum decorated twice); redefinition of a macro after finalize() under unlock_config; '
+        'shared config files (0-2 per case, one may include the other) that `include` statements of any step / file / binding list pull in any number of '
+        'times: every inclusion re-applies the file, so its definitions become the most recent ones again. '
         'distinct = (step kinds, definition/use order pattern, macro value kinds, constant-name suffix structure)')
 TIERS = {
     'quick': {'workers': 8, 'cases': 2000, 'timeout': 600},
@@ -41,7 +43,10 @@ REQUIRED_BUCKETS = ['order:use-before-definition', 'order:definition-before-use'
                     'const:set-valued', 'const:none-valued', 'const:str-valued', 'const:container-valued-delivered', 'const:duplicate-after-clear_config',
                     'const:duplicate-of-late-constant', 'const:duplicate-enum-redecorated', 'const:duplicate-mid-history', 'call:inside-config_scope',
                     'call:scoped-binding-effective', 'macro:explicit-binding-form', 'macro:explicit-reference-form', 'macro:bound-via-bind_parameter',
-                    'macro:container-holding-references', 'step:include-after-statements', 'step:nested-include', 'const:ambiguous-query_parameter']
+                    'macro:container-holding-references', 'step:include-after-statements', 'step:nested-include', 'const:ambiguous-query_parameter',
+                    # files included more than once in a history (every inclusion binds again)
+                    'step:shared-file-included', 'step:file-included-again', 'step:file-included-again-in-same-step', 'step:file-included-again-in-later-step',
+                    'step:shared-file-included-through-shared-file', 'order:rebound-by-repeated-include', 'order:use-in-included-file']
 ORACLE_COUNTERS = ['oracle_evals', 'consumer_calls', 'constant_lookups', 'finalize_checks']
 _S = {}
 # 'a/A', 'x/y/B', 'yx/CAB' end in a component that may name a constant: still macros; 'B' and 'AB' are character tails of the constant leaves
@@ -53,6 +58,7 @@ CONST_KINDS = ['sentinel'] * 5 + ['list', 'dict', 'set', 'none', 'str']
 # [class name, module argument of constants_from_enum (None -> the class's __module__ = 'c5enums'), member names]
 ENUM_SPECS = [['Color', 'pk', ['RED', 'AB']], ['Color', 'qk', ['RED']], ['Shade', None, ['RED', 'B']], ['Color', None, ['GREEN', 'CAB']]]
 ENUM_MODULE = 'c5enums'
+SHARED_INCLUDE_RATE = 0.3                # share of a step's statements that are `include '<shared file>'` (cases that have shared files)
 
 
 class Sentinel:
@@ -129,7 +135,9 @@ def mval_text(v):
   return '%' + v[1]
 
 
-def stmt_text(st):
+def stmt_text(st, shared_path=None):
+  if st[0] == 'inc':
+    return "include '%s'" % shared_path(st[1])
   if st[0] == 'def':
     form = st[3] if len(st) > 3 else 'short'
     return '%s%s = %s' % (st[1], '/gin.macro.value' if form == 'explicit' else '', mval_text(st[2]))
@@ -176,6 +184,36 @@ def enum_names(spec):
   return ['%s.%s.%s' % (module or ENUM_MODULE, clsname, m) for m in members]
 
 
+def gen_stmt(rng, pool, spell, tails, pdef):
+  """One statement: a macro definition ['def', m, value, form] or a consumer binding ['bind', param, tree, scope]."""
+  if rng.random() < pdef:
+    m = rng.choice(pool)
+    others = [x for x in pool if x != m]
+    vk = rng.random()
+    if vk < 0.4:
+      v = ['lit', rng.choice([1, 'two', [3, [4]], {'k': 5}, None])]
+    elif vk < 0.7:
+      v = ['prov', 'prov%d' % rng.randrange(2), rng.random() < 0.3]
+    elif vk < 0.85:
+      v = ['macro', rng.choice(others)] if others else ['lit', 0]
+    else:
+      items = [gen_tree(rng, rng.choice([0, 0, 1]), others, spell, tails, provs=True) for _ in range(rng.choice([1, 2, 3]))]
+      v = ['tree', ['list', items] if rng.random() < 0.7 else ['dict', [['k%d' % j, it] for j, it in enumerate(items)]]]
+    return ['def', m, v, 'explicit' if rng.random() < 0.2 else 'short']
+  return ['bind', rng.choice(['p', 'q']), gen_tree(rng, rng.choice([0, 1, 2]), pool, spell, tails), rng.choice(['', '', '', '', 's', 's/t'])]
+
+
+def gen_shared(rng, pool, spell, tails):
+  """Config files that are not a step of their own: steps (and later shared files) `include` them, possibly several times in one history."""
+  shared = []
+  for j in range(rng.choice([0, 0, 0, 1, 1, 2])):
+    sst = [gen_stmt(rng, pool, spell, tails, 0.7) for _ in range(rng.choice([1, 1, 2, 3]))]
+    if j and rng.random() < 0.6:
+      sst.insert(rng.randrange(len(sst) + 1), ['inc', rng.randrange(j)])      # a base file shared by the files a config is composed of
+    shared.append(sst)
+  return shared
+
+
 def iter_cases(ctx, rng, n):
   for i in range(n):
     consts = gen_constants(rng)
@@ -197,27 +235,16 @@ def iter_cases(ctx, rng, n):
     spell = sorted(spell)
     tails = sorted(tails)
     pool = rng.sample(MACROS, rng.choice([1, 2, 3]))
+    shared = gen_shared(rng, pool, spell, tails)
     steps = []
     for _ in range(nsteps):
       stmts = []
       for _ in range(rng.choice([1, 2, 3, 4])):
-        k = rng.random()
-        if k < 0.5:
-          m = rng.choice(pool)
-          others = [x for x in pool if x != m]
-          vk = rng.random()
-          if vk < 0.4:
-            v = ['lit', rng.choice([1, 'two', [3, [4]], {'k': 5}, None])]
-          elif vk < 0.7:
-            v = ['prov', 'prov%d' % rng.randrange(2), rng.random() < 0.3]
-          elif vk < 0.85:
-            v = ['macro', rng.choice(others)] if others else ['lit', 0]
-          else:
-            items = [gen_tree(rng, rng.choice([0, 0, 1]), others, spell, tails, provs=True) for _ in range(rng.choice([1, 2, 3]))]
-            v = ['tree', ['list', items] if rng.random() < 0.7 else ['dict', [['k%d' % j, it] for j, it in enumerate(items)]]]
-          stmts.append(['def', m, v, 'explicit' if rng.random() < 0.2 else 'short'])
+        if shared and rng.random() < SHARED_INCLUDE_RATE:
+          # `include` of a file other steps / files of this history include as well
+          stmts.append(['inc', rng.randrange(len(shared))])
         else:
-          stmts.append(['bind', rng.choice(['p', 'q']), gen_tree(rng, rng.choice([0, 1, 2]), pool, spell, tails), rng.choice(['', '', '', '', 's', 's/t'])])
+          stmts.append(gen_stmt(rng, pool, spell, tails, 0.5))
       kind = rng.choice(['string', 'string', 'file', 'include', 'include', 'fab', 'list'])
       cuts = sorted(rng.randrange(0, len(stmts) + 1) for _ in range(4))
       if rng.random() < 0.35:
@@ -234,7 +261,7 @@ def iter_cases(ctx, rng, n):
     dup_probes = [[si, rng.random()] for si in range(1, len(steps) + 1) if rng.random() < 0.4]
     post = rng.choice([None, {'v': ['lit', 'post-finalize'], 'form': 'short'}, {'v': ['lit', 9], 'form': 'explicit'}, {'v': ['lit', [9, 'api']], 'form': 'api'},
                        {'v': ['prov', 'prov1', False], 'form': 'short'}])
-    yield {'consts': consts, 'const_kinds': kinds, 'enums': enums, 'late_consts': late, 'api_defs': api_defs, 'dup_probes': dup_probes, 'post_finalize': post,
+    yield {'consts': consts, 'const_kinds': kinds, 'enums': enums, 'shared': shared, 'late_consts': late, 'api_defs': api_defs, 'dup_probes': dup_probes, 'post_finalize': post,
            'steps': steps, 'finalize': rng.random() < 0.6, 'unevaluated': rng.random() < 0.15,
            'bad_const': rng.choice([None, 'invalid', 'duplicate']), 'ambiguous_probe': rng.random() < 0.5, 'query_unbound_first': rng.random() < 0.5,
            'keymacro': rng.choice([None, None, None, None, None, '{%c5_never_bound: 1}', '{(1, %c5_never_bound): [2]}', "{'k': {%c5_never_bound: 0}}", '{@c5_never_bound/gin.macro: 1}'])}
@@ -479,8 +506,32 @@ def run_case(ctx, case):
   used_before_def = set()
   cleared = False
   features = set()
+  shared = case.get('shared') or []
+  shared_paths = {}     # shared file index -> path (written once per case: every `include` of it names the same file)
+  inclusions = {}       # shared file index -> steps at which it was included since the last clear_config
+  file_defined = {}     # shared file index -> macros its earlier inclusions bound
+  last_definer = {}     # macro -> ('shared', j) | ('step', where)
 
-  def define(m, mv, where):
+  def shared_path(j):
+    if j not in shared_paths:
+      shared_paths[j] = write_file([stmt_text(st, shared_path) for st in shared[j]])
+    return shared_paths[j]
+
+  def shared_percent_names(j):
+    out = []
+    for st in shared[j]:
+      out.extend(shared_percent_names(st[1]) if st[0] == 'inc' else percent_names(st))
+    return out
+
+  def define(m, mv, where, origin=None):
+    origin = origin or ('step', where)
+    if origin[0] == 'shared' and m in file_defined.get(origin[1], ()) and last_definer.get(m) != origin and m in table:
+      # the file bound m before, something else re-bound it since, and now the file is included again: its binding is the most recent one
+      ctx.bucket('order:rebound-by-repeated-include')
+      features.add('rebound-by-include')
+    if origin[0] == 'shared':
+      file_defined.setdefault(origin[1], set()).add(m)
+    last_definer[m] = origin
     if m in table:
       ctx.bucket('order:redefinition-later-step' if defined_in_step.get(m) != where else 'order:redefinition-same-step')
     if mv[0] == 'macro' and len(models.resolve_suffix(consts, mv[1])) == 1:
@@ -524,6 +575,9 @@ def run_case(ctx, case):
       table.clear()
       store.clear()
       defined_in_step.clear()
+      inclusions.clear()
+      file_defined.clear()
+      last_definer.clear()
       cleared = True
       ctx.bucket('history:clear_config-keeps-constants')
     for ent in case.get('late_consts', []):
@@ -552,6 +606,13 @@ def run_case(ctx, case):
     # ---- render the step
     # would the step be rejected? (ambiguous constant spelling) -> it raises at that statement; the prefix is applied (C16's domain);
     # here the generator only uses resolvable or unknown spellings, ambiguity is probed separately below
+    # a shared file's text is fixed once written: where a constant defined since makes one of its %names ambiguous, including it (again) would
+    # be rejected -> such an include statement is left out of the step
+    keep = [st for st in step['stmts']
+            if st[0] != 'inc' or not any(len(models.resolve_suffix(consts, t)) > 1 for t in shared_percent_names(st[1]))]
+    if len(keep) != len(step['stmts']):
+      ctx.count('shared_include_dropped_ambiguous', len(step['stmts']) - len(keep))
+      step['stmts'] = keep
     amb = [t for st in step['stmts'] for t in percent_names(st) if len(models.resolve_suffix(consts, t)) > 1]
     if amb:
       ctx.bucket('const:ambiguous')
@@ -572,55 +633,76 @@ def run_case(ctx, case):
           ctx.count('oracle_evals')
       # rewrite ambiguous spellings to the full name (macro names that are ambiguous abbreviations: to the explicit form) so the step is valid
       for st in step['stmts']:
+        if st[0] == 'inc':
+          continue
         if st[0] == 'bind':
           fix_ambiguous(st[2], consts)
         elif st[2][0] == 'tree':
           fix_ambiguous(st[2][1], consts)
         elif st[2][0] == 'macro' and len(models.resolve_suffix(consts, st[2][1])) > 1:
           st[2] = ['tree', ['list', [['xuse', st[2][1]]]]]
-    lines = [stmt_text(st) for st in step['stmts']]
+    lines = [stmt_text(st, shared_path) for st in step['stmts']]
     ctx.bucket('step:' + {'fab': 'files_and_bindings'}.get(step['kind'], step['kind']))
     stepkinds.append(step['kind'])
     sk = step.get('skip_unknown', False)
     if sk:
       ctx.bucket('step:skip_unknown-enabled')   # nothing here is unknown: macro definitions are never skippable
     parse_step(ctx, gin, step, lines, sk)
-    # ---- model: statements in application order
-    for sti, st in enumerate(step['stmts']):
+    # ---- model: statements in application order; an `include` stands for the statements of the file, each time it is met
+    def apply_stmt(st, origin, via=()):
+      if st[0] == 'inc':
+        j = st[1]
+        ctx.bucket('step:shared-file-included')
+        if via:
+          ctx.bucket('step:shared-file-included-through-shared-file')
+        if inclusions.get(j):
+          ctx.bucket('step:file-included-again')
+          ctx.bucket('step:file-included-again-in-same-step' if inclusions[j][-1] == si else 'step:file-included-again-in-later-step')
+          features.add('reinc')
+        inclusions.setdefault(j, []).append(si)
+        for s2 in shared[j]:
+          apply_stmt(s2, ('shared', j), via + (j,))
+        return
       if st[0] == 'def':
         if len(st) > 3 and st[3] == 'explicit':
           ctx.bucket('macro:explicit-binding-form')
           features.add('explicit')
-        if step['kind'] == 'fab' and sti >= fab_cut(step) and any(s2[0] == 'def' and s2[1] == st[1] for s2 in step['stmts'][:fab_cut(step)]):
-          ctx.bucket('order:redefinition-files-then-bindings')
-        define(st[1], st[2], si)
-      else:
-        scope = st[3] if len(st) > 3 else ''
-        fr = freeze(st[2], consts)
-        store[(scope, st[1])] = fr
-        us = uses(fr, [])
-        if uses(st[2], []) != us:
-          ctx.bucket('const:name-became-constant-after-use-as-macro')
-        if has_node(fr, ('xuse',)):
-          ctx.bucket('macro:explicit-reference-form')
-          features.add('xuse')
-        for u in us:
-          if u not in table:
-            used_before_def.add(u)
-            ctx.bucket('order:use-before-definition')
-          else:
-            ctx.bucket('order:definition-before-use')
-        if len(us) != len(set(us)):
-          ctx.bucket('macro:used-twice-in-one-value')
-        pattern.append('U')
-        for spelling in const_spellings_in(st[2]):
-          r = models.resolve_suffix(consts, spelling)
-          if len(r) == 1:
-            ctx.bucket('const:full-name' if r[0] == spelling else 'const:unique-suffix')
-          elif not r and any(c.endswith(spelling) for c in consts):
-            # a character tail of a constant's name that is not a dotted suffix of it: not that constant -> a macro
-            ctx.bucket('const:char-tail-is-not-a-suffix')
-            features.add('tail')
+        define(st[1], st[2], si, origin)
+        return
+      scope = st[3] if len(st) > 3 else ''
+      fr = freeze(st[2], consts)
+      store[(scope, st[1])] = fr
+      us = uses(fr, [])
+      if uses(st[2], []) != us:
+        ctx.bucket('const:name-became-constant-after-use-as-macro')
+      if has_node(fr, ('xuse',)):
+        ctx.bucket('macro:explicit-reference-form')
+        features.add('xuse')
+      if us and via:
+        ctx.bucket('order:use-in-included-file')
+      for u in us:
+        if u not in table:
+          used_before_def.add(u)
+          ctx.bucket('order:use-before-definition')
+        else:
+          ctx.bucket('order:definition-before-use')
+      if len(us) != len(set(us)):
+        ctx.bucket('macro:used-twice-in-one-value')
+      pattern.append('U')
+      for spelling in const_spellings_in(st[2]):
+        r = models.resolve_suffix(consts, spelling)
+        if len(r) == 1:
+          ctx.bucket('const:full-name' if r[0] == spelling else 'const:unique-suffix')
+        elif not r and any(c.endswith(spelling) for c in consts):
+          # a character tail of a constant's name that is not a dotted suffix of it: not that constant -> a macro
+          ctx.bucket('const:char-tail-is-not-a-suffix')
+          features.add('tail')
+
+    for sti, st in enumerate(step['stmts']):
+      if (st[0] == 'def' and step['kind'] == 'fab' and sti >= fab_cut(step)
+          and any(s2[0] == 'def' and s2[1] == st[1] for s2 in step['stmts'][:fab_cut(step)])):
+        ctx.bucket('order:redefinition-files-then-bindings')
+      apply_stmt(st, ('step', si))
     # ---- consumer call between steps
     if step['call'] or si == len(case['steps']) - 1:
       if si < len(case['steps']) - 1:
@@ -783,6 +865,8 @@ def const_spellings_in(t, out=None):
 
 def percent_names(st):
   """Every name written as %name in a statement (constant spellings and macro names alike: the parser cannot tell them apart)."""
+  if st[0] == 'inc':
+    return []
   if st[0] == 'bind':
     t = st[2]
   elif st[2][0] == 'tree':
